@@ -18,6 +18,10 @@
    run by tools/c03.py: replication worlds (writer growth, clears, full and partial upgrades, block/hash/seek requests built
    from the replica's own missing-node query, replica reopen) on crate and model, with the oracle that every honest proof is
    accepted and every held block is byte-identical to the writer's. *)
+From HC Require Import Replicate2E.
+From HC Require Import Replicate2 Replicate2Z Replicate2D.
+From HC Require Import Core SoundCoreLib SoundCore ReplicaDisk1 ReplicaDisk2 ReplicaDisk3 ReplicaDisk5.
+From HC Require ReplicaDisk6 ReplicaDisk7.
 From HC Require Import Base NMap Codec CodecFacts Crypto FlatTree Storage Bitfield Oplog Merkle Core FlatTreeFacts Sound NoPanic Replicate.
 
 Theorem C03_block_request_served :
@@ -355,6 +359,770 @@ Theorem C03_upgrade_nodes_are_full_roots :
              (du_nodes u) /\ (unflushed_indexed t -> map n_index (du_nodes u) = ft_full_roots (2 * t_length t)).
 Proof. exact upgrade_only_roots_are_full_roots. Qed.
 
+Theorem C03_fresh_replica_invariant :
+  forall cr : crypto,
+         OplogFacts.crc_ok cr ->
+         (forall x : bytes, Datatypes.length (cr_hash cr x) = 32%nat) ->
+         (forall x : bytes, all_zero (cr_hash cr x) = false) ->
+         forall (bs : list bytes) (kp : keypair),
+         OplogFacts.keypair_ok kp = true ->
+         kp_secret kp = None ->
+         exists (d' : disk) (ops : list sop) (c : core),
+           core_open cr (Some kp) false disk_empty = (d', ops, Ok c) /\
+           RDInv cr bs c d' (fun _ : N => false) /\ c_keypair c = kp /\ t_length (c_tree c) = 0.
+Proof. exact RDInv_fresh. Qed.
+
+Theorem C03_replica_reads_are_the_writers :
+  forall (cr : crypto) (bs : list bytes),
+         writer_fits bs ->
+         forall (c : core) (d : disk) (H : N -> bool) (j : list sop) (ev : list event) (i : N),
+         RDInv cr bs c d H ->
+         core_get i c {| w_disk := d; w_journal := j; w_events := ev |} =
+         (if H i
+          then (c, {| w_disk := d; w_journal := j; w_events := ev |}, Ok (Some (TreeRef.blk bs i)))
+          else (c, {| w_disk := d; w_journal := j; w_events := EvGet i :: ev |}, Ok None)).
+Proof. exact RD_get. Qed.
+
+Theorem C03_replica_info :
+  forall (cr : crypto) (bs : list bytes) (c : core) (d : disk) (H : N -> bool),
+         RDInv cr bs c d H ->
+         let r := t_length (c_tree c) in
+         core_info c =
+         {|
+           i_length := r;
+           i_byte_length := TreeRef.prefix_size bs r;
+           i_contiguous := hd_contig (c_header c);
+           i_fork := 0;
+           i_writeable := false
+         |} /\ r <= N.of_nat (Datatypes.length bs) /\ Unified1.fexact H (hd_contig (c_header c)).
+Proof. exact RD_info. Qed.
+
+Theorem C03_accepted_proof_keeps_replica_invariant :
+  forall cr : crypto,
+         OplogFacts.crc_ok cr ->
+         (forall x : bytes, Datatypes.length (cr_hash cr x) = 32%nat) ->
+         (forall x : bytes, all_zero (cr_hash cr x) = false) ->
+         (forall x : bytes, bytes_ok (cr_hash cr x) = true) ->
+         forall bs : list bytes,
+         writer_fits bs ->
+         forall (f : option bool) (pf : proof) (c : core) (d : disk) (j : list sop) 
+           (ev : list event) (H : N -> bool) (c' : core) (w' : world),
+         RDInv cr bs c d H ->
+         rd_proof_ok pf ->
+         core_apply_proof cr f pf c {| w_disk := d; w_journal := j; w_events := ev |} = (c', w', Ok true) ->
+         RDInv cr bs c' (w_disk w') (hold H (p_block pf)) /\
+         c_keypair c' = c_keypair c /\
+         t_length (c_tree c) <= t_length (c_tree c') /\
+         (p_upgrade pf = None -> t_length (c_tree c') = t_length (c_tree c)) /\
+         (exists cs : changeset,
+            verifier_says cr c {| w_disk := d; w_journal := j; w_events := ev |} pf = Ok cs /\
+            t_length (c_tree c') = (if cs_upgraded cs then cs_length cs else t_length (c_tree c))) \/
+         some_collision cr \/ forged_signature cr bs (kp_public (c_keypair c)).
+Proof. exact apply_keeps_RDInv. Qed.
+
+Theorem C03_replica_reopen_changes_no_observation :
+  forall cr : crypto,
+         OplogFacts.crc_ok cr ->
+         (forall x : bytes, all_zero (cr_hash cr x) = false) ->
+         forall bs : list bytes,
+         writer_fits bs ->
+         forall (c : core) (d : disk) (H : N -> bool),
+         RDInv cr bs c d H ->
+         exists c' : core,
+           core_open cr None true d = (d, [], Ok c') /\
+           RDInv cr bs c' d H /\
+           core_info c' = core_info c /\
+           i_writeable (core_info c') = false /\
+           (forall i : N, core_has c' i = core_has c i) /\
+           (forall (i : N) (j : list sop) (ev : list event),
+            snd (core_get i c' {| w_disk := d; w_journal := j; w_events := ev |}) =
+            snd (core_get i c {| w_disk := d; w_journal := j; w_events := ev |}) /\
+            snd (fst (core_get i c' {| w_disk := d; w_journal := j; w_events := ev |})) =
+            snd (fst (core_get i c {| w_disk := d; w_journal := j; w_events := ev |}))).
+Proof. exact reopen_RDInv_observations. Qed.
+
+Theorem C03_replica_reopen_reestablishes_invariant :
+  forall cr : crypto,
+         OplogFacts.crc_ok cr ->
+         (forall x : bytes, all_zero (cr_hash cr x) = false) ->
+         forall bs : list bytes,
+         writer_fits bs ->
+         forall (c : core) (d : disk) (H : N -> bool),
+         RDInv cr bs c d H ->
+         exists c' : core,
+           core_open cr None true d = (d, [], Ok c') /\
+           RDInv cr bs c' d H /\
+           c_tree c' = c_tree c /\
+           c_header c' = c_header c /\
+           c_keypair c' = c_keypair c /\
+           c_oplog c' = c_oplog c /\
+           (forall i : N, bf_get (c_bitfield c') i = bf_get (c_bitfield c) i) /\ c_skip c' = 0.
+Proof. exact reopen_RDInv. Qed.
+
+Theorem C03_sparse_tree_truncate_recomputes_roots :
+  forall cr : crypto,
+         (forall x : bytes, all_zero (cr_hash cr x) = false) ->
+         forall (bs : list bytes) (t : mtree) (tf : file) (a m fork : N),
+         t_roots t = TreeRef.ref_roots cr bs a ->
+         (forall x : node, In x (TreeRef.ref_roots cr bs m) -> required_node t tf (n_index x) = Ok x) ->
+         tree_truncate t tf m fork =
+         Ok
+           {|
+             cs_length := m;
+             cs_ancestors := m;
+             cs_byte_length := TreeRef.prefix_size bs m;
+             cs_batch_length := 0;
+             cs_fork := fork;
+             cs_roots := TreeRef.ref_roots cr bs m;
+             cs_rnodes := [];
+             cs_hash := None;
+             cs_signature := None;
+             cs_upgraded := true;
+             cs_orig_length := t_length t;
+             cs_orig_fork := t_fork t
+           |}.
+Proof. exact tree_truncate_sparse. Qed.
+
+Theorem C03_replica_history :
+  forall (cr : crypto) (bs : list bytes),
+         OplogFacts.crc_ok cr ->
+         (forall x : bytes, Datatypes.length (cr_hash cr x) = 32%nat) ->
+         (forall x : bytes, all_zero (cr_hash cr x) = false) ->
+         (forall x : bytes, bytes_ok (cr_hash cr x) = true) ->
+         writer_fits bs ->
+         forall (ops : list rdop) (c : core) (d : disk) (j : list sop) (ev : list event) (H : N -> bool),
+         RDInv cr bs c d H ->
+         Forall rdop_ok ops ->
+         rd_ok bs H (t_length (c_tree c)) ops
+           (rd_run cr ops c {| w_disk := d; w_journal := j; w_events := ev |}) \/
+         some_collision cr \/ forged_signature cr bs (kp_public (c_keypair c)).
+Proof. exact replica_history. Qed.
+
+Theorem C03_fresh_replica_history :
+  forall (cr : crypto) (bs : list bytes),
+         OplogFacts.crc_ok cr ->
+         (forall x : bytes, Datatypes.length (cr_hash cr x) = 32%nat) ->
+         (forall x : bytes, all_zero (cr_hash cr x) = false) ->
+         (forall x : bytes, bytes_ok (cr_hash cr x) = true) ->
+         writer_fits bs ->
+         forall (kp : keypair) (ops : list rdop),
+         OplogFacts.keypair_ok kp = true ->
+         kp_secret kp = None ->
+         Forall rdop_ok ops ->
+         exists (d0 : disk) (ops0 : list sop) (c0 : core),
+           core_open cr (Some kp) false disk_empty = (d0, ops0, Ok c0) /\
+           (rd_ok bs (fun _ : N => false) 0 ops
+              (rd_run cr ops c0 {| w_disk := d0; w_journal := []; w_events := [] |}) \/
+            some_collision cr \/ forged_signature cr bs (kp_public kp)).
+Proof. exact fresh_replica_history. Qed.
+
+Theorem C03_partial_upgrade_accepted :
+  forall (cr : crypto) (bs : list bytes),
+         sumN (map len bs) <= u64_max ->
+         forall (t : mtree) (tf : file) (rt : mtree) (rtf : file) (w r u : N) (sg pk : bytes),
+         Refine.lookups cr t tf bs w ->
+         t_length t = w ->
+         t_signature t = Some sg ->
+         t_roots rt = TreeRef.ref_roots cr bs r ->
+         t_length rt = r ->
+         t_byte_length rt = TreeRef.prefix_size bs r ->
+         0 < r ->
+         r < u ->
+         u <= w ->
+         2 * w <= u64_max ->
+         Datatypes.length sg = 64%nat ->
+         cr_verify cr pk (signable (tree_hash cr (TreeRef.ref_roots cr bs w)) w (t_fork t)) sg = true ->
+         let up :=
+           {|
+             du_start := r;
+             du_length := u - r;
+             du_nodes := map (TreeRef.rn cr bs) (upg_idx g64 0 r u);
+             du_additional := if u <? w then map (TreeRef.rn cr bs) (upg_idx g64 0 u w) else [];
+             du_signature := sg
+           |} in
+         exists cs : changeset,
+           create_valueless_proof t tf None None None (Some {| ru_start := r; ru_length := u - r |}) =
+           Ok
+             {|
+               vp_fork := t_fork t; vp_block := None; vp_hash := None; vp_seek := None; vp_upgrade := Some up
+             |} /\
+           verify_proof cr rt rtf
+             {| p_fork := t_fork t; p_block := None; p_hash := None; p_seek := None; p_upgrade := Some up |} pk =
+           Ok cs /\
+           cs_roots cs = TreeRef.ref_roots cr bs w /\
+           cs_length cs = w /\
+           cs_byte_length cs = TreeRef.prefix_size bs w /\
+           cs_fork cs = t_fork t /\
+           cs_upgraded cs = true /\
+           cs_signature cs = Some sg /\
+           cs_hash cs = Some (tree_hash cr (TreeRef.ref_roots cr bs w)) /\
+           cs_ancestors cs = r /\
+           Forall (TreeRef.is_ref cr bs) (cs_nodes cs) /\
+           commitable rt cs = true /\
+           tree_commit rt cs =
+           Ok
+             {|
+               t_roots := TreeRef.ref_roots cr bs w;
+               t_length := w;
+               t_byte_length := TreeRef.prefix_size bs w;
+               t_fork := t_fork t;
+               t_signature := Some sg;
+               t_unflushed := add_nodes (t_unflushed rt) (cs_nodes cs)
+             |}.
+Proof. exact partial_upgrade_accepted. Qed.
+
+Theorem C03_upgrade_of_nonempty_replica_accepted :
+  forall (cr : crypto) (bs : list bytes),
+         sumN (map len bs) <= u64_max ->
+         forall (t : mtree) (tf : file) (rt : mtree) (rtf : file) (w r : N) (sg pk : bytes),
+         Refine.lookups cr t tf bs w ->
+         t_length t = w ->
+         t_signature t = Some sg ->
+         t_roots rt = TreeRef.ref_roots cr bs r ->
+         t_length rt = r ->
+         t_byte_length rt = TreeRef.prefix_size bs r ->
+         0 < r ->
+         r < w ->
+         2 * w <= u64_max ->
+         Datatypes.length sg = 64%nat ->
+         cr_verify cr pk (signable (tree_hash cr (TreeRef.ref_roots cr bs w)) w (t_fork t)) sg = true ->
+         exists cs : changeset,
+           create_valueless_proof t tf None None None (Some {| ru_start := r; ru_length := w - r |}) =
+           Ok
+             {|
+               vp_fork := t_fork t;
+               vp_block := None;
+               vp_hash := None;
+               vp_seek := None;
+               vp_upgrade :=
+                 Some
+                   {|
+                     du_start := r;
+                     du_length := w - r;
+                     du_nodes := map (TreeRef.rn cr bs) (upg_idx g64 0 r w);
+                     du_additional := [];
+                     du_signature := sg
+                   |}
+             |} /\
+           verify_proof cr rt rtf
+             {|
+               p_fork := t_fork t;
+               p_block := None;
+               p_hash := None;
+               p_seek := None;
+               p_upgrade :=
+                 Some
+                   {|
+                     du_start := r;
+                     du_length := w - r;
+                     du_nodes := map (TreeRef.rn cr bs) (upg_idx g64 0 r w);
+                     du_additional := [];
+                     du_signature := sg
+                   |}
+             |} pk = Ok cs /\
+           cs_roots cs = TreeRef.ref_roots cr bs w /\
+           cs_length cs = w /\
+           cs_byte_length cs = TreeRef.prefix_size bs w /\
+           cs_fork cs = t_fork t /\
+           cs_upgraded cs = true /\
+           cs_signature cs = Some sg /\
+           cs_hash cs = Some (tree_hash cr (TreeRef.ref_roots cr bs w)) /\
+           cs_ancestors cs = r /\
+           Forall (TreeRef.is_ref cr bs) (cs_nodes cs) /\
+           commitable rt cs = true /\
+           tree_commit rt cs =
+           Ok
+             {|
+               t_roots := TreeRef.ref_roots cr bs w;
+               t_length := w;
+               t_byte_length := TreeRef.prefix_size bs w;
+               t_fork := t_fork t;
+               t_signature := Some sg;
+               t_unflushed := add_nodes (t_unflushed rt) (cs_nodes cs)
+             |}.
+Proof. exact upgrade_nonempty_accepted. Qed.
+
+Theorem C03_upgrade_from_empty_replica_accepted :
+  forall (cr : crypto) (bs : list bytes),
+         sumN (map len bs) <= u64_max ->
+         forall (t : mtree) (tf : file) (rt : mtree) (rtf : file) (w u : N) (sg pk : bytes),
+         Refine.lookups cr t tf bs w ->
+         t_length t = w ->
+         t_signature t = Some sg ->
+         t_roots rt = [] ->
+         t_length rt = 0 ->
+         t_byte_length rt = 0 ->
+         0 < u ->
+         u <= w ->
+         2 * w <= u64_max ->
+         Datatypes.length sg = 64%nat ->
+         cr_verify cr pk (signable (tree_hash cr (TreeRef.ref_roots cr bs w)) w (t_fork t)) sg = true ->
+         let up :=
+           {|
+             du_start := 0;
+             du_length := u;
+             du_nodes := map (TreeRef.rn cr bs) (roots_from g64 0 u);
+             du_additional := if u <? w then map (TreeRef.rn cr bs) (upg_idx g64 0 u w) else [];
+             du_signature := sg
+           |} in
+         exists cs : changeset,
+           create_valueless_proof t tf None None None (Some {| ru_start := 0; ru_length := u |}) =
+           Ok
+             {|
+               vp_fork := t_fork t; vp_block := None; vp_hash := None; vp_seek := None; vp_upgrade := Some up
+             |} /\
+           verify_proof cr rt rtf
+             {| p_fork := t_fork t; p_block := None; p_hash := None; p_seek := None; p_upgrade := Some up |} pk =
+           Ok cs /\
+           cs_roots cs = TreeRef.ref_roots cr bs w /\
+           cs_length cs = w /\
+           cs_byte_length cs = TreeRef.prefix_size bs w /\
+           cs_fork cs = t_fork t /\
+           cs_upgraded cs = true /\
+           cs_signature cs = Some sg /\
+           cs_hash cs = Some (tree_hash cr (TreeRef.ref_roots cr bs w)) /\
+           cs_ancestors cs = 0 /\
+           Forall (TreeRef.is_ref cr bs) (cs_nodes cs) /\
+           commitable rt cs = true /\
+           tree_commit rt cs =
+           Ok
+             {|
+               t_roots := TreeRef.ref_roots cr bs w;
+               t_length := w;
+               t_byte_length := TreeRef.prefix_size bs w;
+               t_fork := t_fork t;
+               t_signature := Some sg;
+               t_unflushed := add_nodes (t_unflushed rt) (cs_nodes cs)
+             |}.
+Proof. exact empty_upgrade_accepted. Qed.
+
+Theorem C03_block_below_with_partial_upgrade_accepted :
+  forall (cr : crypto) (bs : list bytes),
+         sumN (map len bs) <= u64_max ->
+         forall (t : mtree) (tf : file) (rt : mtree) (rtf : file) (w r u i k : N) (sg pk : bytes),
+         Refine.lookups cr t tf bs w ->
+         t_length t = w ->
+         t_signature t = Some sg ->
+         t_roots rt = TreeRef.ref_roots cr bs r ->
+         t_length rt = r ->
+         t_byte_length rt = TreeRef.prefix_size bs r ->
+         (forall (j : N) (n : node),
+          optional_node rt rtf j = Ok (Some n) -> n_hash n = n_hash (TreeRef.ref_at cr bs j)) ->
+         0 < r ->
+         r < u ->
+         u <= w ->
+         2 * w <= u64_max ->
+         i < r ->
+         missing_nodes rt rtf (2 * i) = Ok k ->
+         it_contains (it_up_n (N.to_nat k) (it_new (2 * i))) (2 * t_length rt) = false ->
+         Datatypes.length sg = 64%nat ->
+         cr_verify cr pk (signable (tree_hash cr (TreeRef.ref_roots cr bs w)) w (t_fork t)) sg = true ->
+         let ns := path_nodes cr bs (N.to_nat k) i in
+         let up :=
+           {|
+             du_start := r;
+             du_length := u - r;
+             du_nodes := map (TreeRef.rn cr bs) (upg_idx g64 0 r u);
+             du_additional := if u <? w then map (TreeRef.rn cr bs) (upg_idx g64 0 u w) else [];
+             du_signature := sg
+           |} in
+         exists cs : changeset,
+           create_valueless_proof t tf (Some {| rb_index := i; rb_nodes := k |}) None None
+             (Some {| ru_start := r; ru_length := u - r |}) =
+           Ok
+             {|
+               vp_fork := t_fork t;
+               vp_block := Some {| dh_index := i; dh_nodes := ns |};
+               vp_hash := None;
+               vp_seek := None;
+               vp_upgrade := Some up
+             |} /\
+           verify_proof cr rt rtf
+             {|
+               p_fork := t_fork t;
+               p_block := Some {| db_index := i; db_value := TreeRef.blk bs i; db_nodes := ns |};
+               p_hash := None;
+               p_seek := None;
+               p_upgrade := Some up
+             |} pk = Ok cs /\
+           cs_roots cs = TreeRef.ref_roots cr bs w /\
+           cs_length cs = w /\
+           cs_byte_length cs = TreeRef.prefix_size bs w /\
+           cs_fork cs = t_fork t /\
+           cs_upgraded cs = true /\
+           cs_signature cs = Some sg /\
+           cs_ancestors cs = r /\
+           Forall (TreeRef.is_ref cr bs) (cs_nodes cs) /\
+           In (TreeRef.ref_node cr bs 0 i) (cs_nodes cs) /\
+           (forall n : node, In n ns -> In n (cs_nodes cs)) /\ commitable rt cs = true.
+Proof. exact block_partial_upgrade_below_accepted. Qed.
+
+Theorem C03_block_inside_partial_upgrade_accepted :
+  forall (cr : crypto) (bs : list bytes),
+         sumN (map len bs) <= u64_max ->
+         forall (t : mtree) (tf : file) (rt : mtree) (rtf : file) (w r u i k : N) (sg pk : bytes),
+         Refine.lookups cr t tf bs w ->
+         t_length t = w ->
+         t_signature t = Some sg ->
+         t_roots rt = TreeRef.ref_roots cr bs r ->
+         t_length rt = r ->
+         t_byte_length rt = TreeRef.prefix_size bs r ->
+         0 < r ->
+         r < u ->
+         u <= w ->
+         2 * w <= u64_max ->
+         r <= i ->
+         i < u ->
+         Datatypes.length sg = 64%nat ->
+         cr_verify cr pk (signable (tree_hash cr (TreeRef.ref_roots cr bs w)) w (t_fork t)) sg = true ->
+         exists (l1 : list (nat * N)) (y : nat * N) (l2 : list (nat * N)) (cs : changeset),
+           upg_idx g64 0 r u = l1 ++ y :: l2 /\
+           covers y i = true /\
+           (let ns := path_nodes cr bs (fst y) i in
+            let up :=
+              {|
+                du_start := r;
+                du_length := u - r;
+                du_nodes := map (TreeRef.rn cr bs) (l1 ++ l2);
+                du_additional := if u <? w then map (TreeRef.rn cr bs) (upg_idx g64 0 u w) else [];
+                du_signature := sg
+              |} in
+            create_valueless_proof t tf (Some {| rb_index := i; rb_nodes := k |}) None None
+              (Some {| ru_start := r; ru_length := u - r |}) =
+            Ok
+              {|
+                vp_fork := t_fork t;
+                vp_block := Some {| dh_index := i; dh_nodes := ns |};
+                vp_hash := None;
+                vp_seek := None;
+                vp_upgrade := Some up
+              |} /\
+            verify_proof cr rt rtf
+              {|
+                p_fork := t_fork t;
+                p_block := Some {| db_index := i; db_value := TreeRef.blk bs i; db_nodes := ns |};
+                p_hash := None;
+                p_seek := None;
+                p_upgrade := Some up
+              |} pk = Ok cs /\
+            cs_roots cs = TreeRef.ref_roots cr bs w /\
+            cs_length cs = w /\
+            cs_byte_length cs = TreeRef.prefix_size bs w /\
+            cs_fork cs = t_fork t /\
+            cs_upgraded cs = true /\
+            cs_signature cs = Some sg /\
+            cs_ancestors cs = r /\
+            Forall (TreeRef.is_ref cr bs) (cs_nodes cs) /\
+            In (TreeRef.ref_node cr bs 0 i) (cs_nodes cs) /\
+            (forall n : node, In n ns -> In n (cs_nodes cs)) /\ commitable rt cs = true).
+Proof. exact block_partial_upgrade_inside_accepted. Qed.
+
+Theorem C03_missing_nodes_beyond_length :
+  forall bs : list bytes,
+         sumN (map len bs) <= u64_max ->
+         forall (rt : mtree) (rtf : file) (i : N), t_length rt <= i -> missing_nodes rt rtf (2 * i) = Ok 0.
+Proof. exact missing_nodes_beyond. Qed.
+
+Theorem C03_hash_request_served :
+  forall (cr : crypto) (bs : list bytes),
+         sumN (map len bs) <= u64_max ->
+         forall (t : mtree) (tf : file) (rt : mtree) (rtf : file) (w : N) (d : nat) (a k : N) (pk : bytes),
+         Refine.lookups cr t tf bs w ->
+         t_length t = w ->
+         0 < w ->
+         t_length rt <= w ->
+         2 * w <= u64_max ->
+         (forall (j : N) (n : node),
+          optional_node rt rtf j = Ok (Some n) -> n_hash n = n_hash (TreeRef.ref_at cr bs j)) ->
+         (a + 1) * OffsetFacts.p2 d <= t_length rt ->
+         missing_nodes rt rtf (ft_index (N.of_nat d) a) = Ok k ->
+         let kk := N.to_nat k in
+         (a / OffsetFacts.p2 kk + 1) * OffsetFacts.p2 (d + kk) <= t_length rt ->
+         let ns := hash_nodes cr bs kk d a in
+         exists cs : changeset,
+           create_valueless_proof t tf None (Some {| rb_index := ft_index (N.of_nat d) a; rb_nodes := k |})
+             None None =
+           Ok
+             {|
+               vp_fork := t_fork t;
+               vp_block := None;
+               vp_hash := Some {| dh_index := ft_index (N.of_nat d) a; dh_nodes := ns |};
+               vp_seek := None;
+               vp_upgrade := None
+             |} /\
+           verify_proof cr rt rtf
+             {|
+               p_fork := t_fork t;
+               p_block := None;
+               p_hash := Some {| dh_index := ft_index (N.of_nat d) a; dh_nodes := ns |};
+               p_seek := None;
+               p_upgrade := None
+             |} pk = Ok cs /\
+           cs_upgraded cs = false /\
+           commitable rt cs = true /\
+           cs_roots cs = t_roots rt /\
+           Forall (TreeRef.is_ref cr bs) (cs_nodes cs) /\ (forall n : node, In n ns -> In n (cs_nodes cs)).
+Proof. exact hash_request_served. Qed.
+
+Theorem C03_hash_below_with_upgrade_accepted :
+  forall (cr : crypto) (bs : list bytes),
+         sumN (map len bs) <= u64_max ->
+         forall (t : mtree) (tf : file) (rt : mtree) (rtf : file) (w r u : N) (d0 : nat) 
+           (a0 k : N) (sg pk : bytes),
+         Refine.lookups cr t tf bs w ->
+         t_length t = w ->
+         t_signature t = Some sg ->
+         t_roots rt = TreeRef.ref_roots cr bs r ->
+         t_length rt = r ->
+         t_byte_length rt = TreeRef.prefix_size bs r ->
+         (forall (j : N) (n : node),
+          optional_node rt rtf j = Ok (Some n) -> n_hash n = n_hash (TreeRef.ref_at cr bs j)) ->
+         0 < r ->
+         r < u ->
+         u <= w ->
+         2 * w <= u64_max ->
+         (a0 + 1) * OffsetFacts.p2 d0 <= r ->
+         missing_nodes rt rtf (ft_index (N.of_nat d0) a0) = Ok k ->
+         let kk := N.to_nat k in
+         (a0 / OffsetFacts.p2 kk + 1) * OffsetFacts.p2 (d0 + kk) <= r ->
+         Datatypes.length sg = 64%nat ->
+         cr_verify cr pk (signable (tree_hash cr (TreeRef.ref_roots cr bs w)) w (t_fork t)) sg = true ->
+         let idx := ft_index (N.of_nat d0) a0 in
+         let ns := hash_nodes cr bs kk d0 a0 in
+         let up :=
+           {|
+             du_start := r;
+             du_length := u - r;
+             du_nodes := map (TreeRef.rn cr bs) (upg_idx g64 0 r u);
+             du_additional := if u <? w then map (TreeRef.rn cr bs) (upg_idx g64 0 u w) else [];
+             du_signature := sg
+           |} in
+         exists cs : changeset,
+           create_valueless_proof t tf None (Some {| rb_index := idx; rb_nodes := k |}) None
+             (Some {| ru_start := r; ru_length := u - r |}) =
+           Ok
+             {|
+               vp_fork := t_fork t;
+               vp_block := None;
+               vp_hash := Some {| dh_index := idx; dh_nodes := ns |};
+               vp_seek := None;
+               vp_upgrade := Some up
+             |} /\
+           verify_proof cr rt rtf
+             {|
+               p_fork := t_fork t;
+               p_block := None;
+               p_hash := Some {| dh_index := idx; dh_nodes := ns |};
+               p_seek := None;
+               p_upgrade := Some up
+             |} pk = Ok cs /\
+           cs_roots cs = TreeRef.ref_roots cr bs w /\
+           cs_length cs = w /\
+           cs_byte_length cs = TreeRef.prefix_size bs w /\
+           cs_fork cs = t_fork t /\
+           cs_upgraded cs = true /\
+           cs_signature cs = Some sg /\
+           cs_ancestors cs = r /\
+           Forall (TreeRef.is_ref cr bs) (cs_nodes cs) /\
+           In (TreeRef.ref_node cr bs d0 a0) (cs_nodes cs) /\ commitable rt cs = true.
+Proof. exact hash_upgrade_below_accepted. Qed.
+
+Theorem C03_hash_inside_upgrade_accepted :
+  forall (cr : crypto) (bs : list bytes),
+         sumN (map len bs) <= u64_max ->
+         forall (t : mtree) (tf : file) (rt : mtree) (rtf : file) (w r u : N) (d0 : nat) 
+           (a0 k : N) (sg pk : bytes) (l1 : list (nat * N)) (d : nat) (o : N) (l2 : list (nat * N)),
+         Refine.lookups cr t tf bs w ->
+         t_length t = w ->
+         t_signature t = Some sg ->
+         t_roots rt = TreeRef.ref_roots cr bs r ->
+         t_length rt = r ->
+         t_byte_length rt = TreeRef.prefix_size bs r ->
+         0 < r ->
+         r < u ->
+         u <= w ->
+         2 * w <= u64_max ->
+         upg_idx g64 0 r u = l1 ++ (d, o) :: l2 ->
+         (d0 <= d)%nat ->
+         o * OffsetFacts.p2 (d - d0) <= a0 ->
+         a0 < (o + 1) * OffsetFacts.p2 (d - d0) ->
+         Datatypes.length sg = 64%nat ->
+         cr_verify cr pk (signable (tree_hash cr (TreeRef.ref_roots cr bs w)) w (t_fork t)) sg = true ->
+         let idx := ft_index (N.of_nat d0) a0 in
+         let ns := hash_nodes cr bs (d - d0) d0 a0 in
+         let up :=
+           {|
+             du_start := r;
+             du_length := u - r;
+             du_nodes := map (TreeRef.rn cr bs) (l1 ++ l2);
+             du_additional := if u <? w then map (TreeRef.rn cr bs) (upg_idx g64 0 u w) else [];
+             du_signature := sg
+           |} in
+         exists cs : changeset,
+           create_valueless_proof t tf None (Some {| rb_index := idx; rb_nodes := k |}) None
+             (Some {| ru_start := r; ru_length := u - r |}) =
+           Ok
+             {|
+               vp_fork := t_fork t;
+               vp_block := None;
+               vp_hash := Some {| dh_index := idx; dh_nodes := ns |};
+               vp_seek := None;
+               vp_upgrade := Some up
+             |} /\
+           verify_proof cr rt rtf
+             {|
+               p_fork := t_fork t;
+               p_block := None;
+               p_hash := Some {| dh_index := idx; dh_nodes := ns |};
+               p_seek := None;
+               p_upgrade := Some up
+             |} pk = Ok cs /\
+           cs_roots cs = TreeRef.ref_roots cr bs w /\
+           cs_length cs = w /\
+           cs_byte_length cs = TreeRef.prefix_size bs w /\
+           cs_fork cs = t_fork t /\
+           cs_upgraded cs = true /\
+           cs_signature cs = Some sg /\
+           cs_ancestors cs = r /\
+           Forall (TreeRef.is_ref cr bs) (cs_nodes cs) /\
+           In (TreeRef.ref_node cr bs d0 a0) (cs_nodes cs) /\ commitable rt cs = true.
+Proof. exact hash_upgrade_inside_accepted. Qed.
+
+Theorem C03_seek_with_upgrade_accepted :
+  forall (cr : crypto) (bs : list bytes),
+         sumN (map len bs) <= u64_max ->
+         forall (t : mtree) (tf : file) (rt : mtree) (rtf : file) (w r u bytes0 : N) (sg pk : bytes),
+         Refine.lookups cr t tf bs w ->
+         t_length t = w ->
+         t_signature t = Some sg ->
+         t_roots rt = TreeRef.ref_roots cr bs r ->
+         t_length rt = r ->
+         t_byte_length rt = TreeRef.prefix_size bs r ->
+         0 < r ->
+         r < u ->
+         u <= w ->
+         2 * w <= u64_max ->
+         Datatypes.length sg = 64%nat ->
+         cr_verify cr pk (signable (tree_hash cr (TreeRef.ref_roots cr bs w)) w (t_fork t)) sg = true ->
+         exists (vp : vproof) (cs : changeset),
+           create_valueless_proof t tf None None (Some {| rs_bytes := bytes0 |})
+             (Some {| ru_start := r; ru_length := u - r |}) = Ok vp /\
+           vp_block vp = None /\
+           vp_hash vp = None /\
+           vp_fork vp = t_fork t /\
+           verify_proof cr rt rtf (vp_to_proof vp None) pk = Ok cs /\
+           cs_roots cs = TreeRef.ref_roots cr bs w /\
+           cs_length cs = w /\
+           cs_byte_length cs = TreeRef.prefix_size bs w /\
+           cs_fork cs = t_fork t /\
+           cs_upgraded cs = true /\
+           cs_signature cs = Some sg /\
+           cs_ancestors cs = r /\ Forall (TreeRef.is_ref cr bs) (cs_nodes cs) /\ commitable rt cs = true.
+Proof. exact seek_upgrade_accepted. Qed.
+
+Theorem C03_honest_block_proof_applied_end_to_end :
+  forall cr : crypto,
+         (forall x : bytes, Datatypes.length (cr_hash cr x) = 32%nat) ->
+         (forall x : bytes, all_zero (cr_hash cr x) = false) ->
+         forall (bs : list bytes) (c : core) (d : disk) (jn : list sop) (ev : list event) 
+           (r i : N) (k : nat) (o : N),
+         Replicate2E.RInv cr bs c d r ->
+         i < r ->
+         (k < CLIMB)%nat ->
+         o * OffsetFacts.p2 k <= i ->
+         i < (o + 1) * OffsetFacts.p2 k ->
+         (o + 1) * OffsetFacts.p2 k <= r ->
+         (exists n0 : node, optional_node (c_tree c) (d_tree d) (ft_index (N.of_nat k) o) = Ok (Some n0)) ->
+         path_reads cr bs (c_tree c) (d_tree d) r (o * OffsetFacts.p2 k) ->
+         (forall b : bytes,
+          enc_entry
+            {|
+              e_nodes := TreeRef.ref_node cr bs 0 i :: path_vis cr bs k 0 i;
+              e_upgrade := None;
+              e_bitfield := Some {| bu_drop := false; bu_start := i; bu_length := 1 |}
+            |} = Ok b -> len b < 1073741824) ->
+         exists (c' : core) (d' : disk) (jn' : list sop),
+           core_apply_proof cr (Some false) (block_proof cr bs (t_fork (c_tree c)) i k) c
+             {| w_disk := d; w_journal := jn; w_events := ev |} =
+           (c', {| w_disk := d'; w_journal := jn'; w_events := EvHave i 1 false :: ev |}, Ok true) /\
+           Replicate2E.RInv cr bs c' d' r /\
+           core_has c' i = true /\
+           d_data d' = f_write (d_data d) (TreeRef.prefix_size bs i) (TreeRef.blk bs i) /\
+           f_read (d_data d') (TreeRef.prefix_size bs i) (len (TreeRef.blk bs i)) = Some (TreeRef.blk bs i) /\
+           (forall (jn2 : list sop) (ev2 : list event),
+            core_get i c' {| w_disk := d'; w_journal := jn2; w_events := ev2 |} =
+            (c', {| w_disk := d'; w_journal := jn2; w_events := ev2 |}, Ok (Some (TreeRef.blk bs i)))) /\
+           (forall j : N, core_has c j = true -> core_has c' j = true).
+Proof. exact apply_block_proof. Qed.
+
+Theorem C03_honest_upgrade_proof_applied_end_to_end :
+  forall cr : crypto,
+         (forall x : bytes, Datatypes.length (cr_hash cr x) = 32%nat) ->
+         (forall x : bytes, all_zero (cr_hash cr x) = false) ->
+         forall (bs : list bytes) (c : core) (d : disk) (jn : list sop) (ev : list event) 
+           (r w : N) (up : data_upgrade) (cs : changeset) (hash sg : bytes),
+         Replicate2E.RInv cr bs c d r ->
+         r <= w ->
+         2 * w <= u64_max ->
+         verify_proof cr (c_tree c) (d_tree d)
+           {|
+             p_fork := t_fork (c_tree c); p_block := None; p_hash := None; p_seek := None; p_upgrade := Some up
+           |} (kp_public (c_keypair c)) = Ok cs ->
+         cs_roots cs = TreeRef.ref_roots cr bs w ->
+         cs_length cs = w ->
+         cs_byte_length cs = TreeRef.prefix_size bs w ->
+         cs_upgraded cs = true ->
+         cs_hash cs = Some hash ->
+         cs_signature cs = Some sg ->
+         cs_ancestors cs = r ->
+         Forall (TreeRef.is_ref cr bs) (cs_nodes cs) ->
+         commitable (c_tree c) cs = true ->
+         (forall b : bytes,
+          enc_entry
+            {|
+              e_nodes := cs_nodes cs;
+              e_upgrade :=
+                Some
+                  {|
+                    tu_fork := cs_fork cs;
+                    tu_ancestors := cs_ancestors cs;
+                    tu_length := cs_length cs;
+                    tu_signature := sg
+                  |};
+              e_bitfield := None
+            |} = Ok b -> len b < 1073741824) ->
+         exists (c' : core) (d' : disk) (jn' : list sop),
+           core_apply_proof cr (Some false)
+             {|
+               p_fork := t_fork (c_tree c);
+               p_block := None;
+               p_hash := None;
+               p_seek := None;
+               p_upgrade := Some up
+             |} c {| w_disk := d; w_journal := jn; w_events := ev |} =
+           (c', {| w_disk := d'; w_journal := jn'; w_events := EvUpgrade :: ev |}, Ok true) /\
+           Replicate2E.RInv cr bs c' d' w /\
+           d_data d' = d_data d /\ c_bitfield c' = c_bitfield c /\ t_length (c_tree c') = w.
+Proof. exact apply_upgrade_proof. Qed.
+
+Theorem C03_block_stored_at_prefix_sum_offset :
+  forall (cr : crypto) (bs : list bytes),
+         sumN (map len bs) <= u64_max ->
+         forall (rt : mtree) (rtf : file) (r i : N) (k : nat) (o : N),
+         t_roots rt = TreeRef.ref_roots cr bs r ->
+         t_length rt = r ->
+         i < r ->
+         i * 2 <= u64_max ->
+         o * OffsetFacts.p2 k <= i ->
+         i < (o + 1) * OffsetFacts.p2 k ->
+         (position_of (ft_index (N.of_nat k) o) (t_roots rt) 0 = None ->
+          byte_offset_from_nodes rt rtf (ft_index (N.of_nat k) o) =
+          Ok (TreeRef.prefix_size bs (o * OffsetFacts.p2 k))) ->
+         forall cs : changeset,
+         cs_nodes cs = TreeRef.ref_node cr bs 0 i :: path_vis cr bs k 0 i ->
+         cs_roots cs = t_roots rt -> byte_offset_in_changeset rt rtf i cs = Ok (TreeRef.prefix_size bs i).
+Proof. exact block_offset_in_changeset. Qed.
+
 Print Assumptions C03_block_request_served.
 Print Assumptions C03_block_only_end_to_end.
 Print Assumptions C03_block_only_accepted.
@@ -371,3 +1139,29 @@ Print Assumptions C03_upgrade_nodes_are_full_roots.
 Print Assumptions ex_core_replication.
 Print Assumptions ex_block_request_served.
 Print Assumptions ex_block_proof_tampered.
+Print Assumptions C03_fresh_replica_invariant.
+Print Assumptions C03_replica_reads_are_the_writers.
+Print Assumptions C03_replica_info.
+Print Assumptions C03_accepted_proof_keeps_replica_invariant.
+Print Assumptions C03_replica_reopen_changes_no_observation.
+Print Assumptions C03_replica_reopen_reestablishes_invariant.
+Print Assumptions C03_sparse_tree_truncate_recomputes_roots.
+Print Assumptions C03_replica_history.
+Print Assumptions C03_fresh_replica_history.
+Print Assumptions ReplicaDisk6.sc_crash_cuts_computed.
+Print Assumptions ReplicaDisk6.sc_history_computed.
+Print Assumptions ReplicaDisk7.sc_synced_RDInv.
+Print Assumptions ReplicaDisk7.sc_synced_reopens.
+Print Assumptions C03_partial_upgrade_accepted.
+Print Assumptions C03_upgrade_of_nonempty_replica_accepted.
+Print Assumptions C03_upgrade_from_empty_replica_accepted.
+Print Assumptions C03_block_below_with_partial_upgrade_accepted.
+Print Assumptions C03_block_inside_partial_upgrade_accepted.
+Print Assumptions C03_missing_nodes_beyond_length.
+Print Assumptions C03_hash_request_served.
+Print Assumptions C03_hash_below_with_upgrade_accepted.
+Print Assumptions C03_hash_inside_upgrade_accepted.
+Print Assumptions C03_seek_with_upgrade_accepted.
+Print Assumptions C03_honest_block_proof_applied_end_to_end.
+Print Assumptions C03_honest_upgrade_proof_applied_end_to_end.
+Print Assumptions C03_block_stored_at_prefix_sum_offset.
